@@ -224,16 +224,19 @@ static bool deliverMany(const std::vector<std::pair<int, std::uint32_t>>& evs)
 // ------------------------------------------------------------------------------------------------ recorded epoll interest
 static std::mutex g_maskM;
 static std::map<int, std::uint32_t> g_mask;
+static unsigned long g_ctlFailed = 0;
 typedef int (*epoll_ctl_t)(int, int, int, struct epoll_event*);
 extern "C" int epoll_ctl(int epfd, int op, int fd, struct epoll_event* ev)
 {
   static epoll_ctl_t real = (epoll_ctl_t)dlsym(RTLD_NEXT, "epoll_ctl");
-  {
-    std::lock_guard<std::mutex> g(g_maskM);
-    if (op == EPOLL_CTL_DEL) g_mask.erase(fd);
-    else if (ev) g_mask[fd] = ev->events;
-  }
-  return real(epfd, op, fd, ev);
+  std::uint32_t want = ev ? ev->events : 0;
+  int r = real(epfd, op, fd, ev);
+  // the recorded interest is what the KERNEL holds: a failing ADD/MOD arms nothing (the socket stays silent, as it would for real)
+  std::lock_guard<std::mutex> g(g_maskM);
+  if (r != 0) { ++g_ctlFailed; return r; }
+  if (op == EPOLL_CTL_DEL) g_mask.erase(fd);
+  else if (ev) g_mask[fd] = want;
+  return r;
 }
 static bool armed(int fd, std::uint32_t bit)
 {
@@ -275,6 +278,14 @@ static std::vector<Ev> g_log;
 static std::deque<char> g_script;                  // positional answers (flush scripts of wl / wc)
 static std::deque<bool> g_gniScript;               // per key() call of the I/O thread: true = getnameinfo fails (EAI_FAIL)
 static std::map<int, std::vector<bool>> g_gniByFd;  // while a batch is being built: the flags of each event, by the descriptor it is about;
+static bool g_et = true;                            // TransportConfig::useEdgeTriggered of the current engine
+static unsigned long g_ltRedeliveries = 0, g_ovClose = 0, g_ovDropOldest = 0, g_lastBp = 0, g_samePortFallback = 0;
+static unsigned long g_gcIdle = 0, g_gcAge = 0, g_gcStall = 0, g_mergedInOut = 0, g_zeroLenArrivals = 0, g_maxBurst = 0;
+static bool g_cob = true;
+static void (*g_onCloseHook)(SessionId) = nullptr;            // restart @<sid>: commands enqueued from the onClose callback of <sid>
+static SessionId g_hookSid = 0;
+static std::vector<std::vector<std::string>> g_hookCmds;
+static unsigned long g_sendAsyncCalls = 0, g_restartPending = 0, g_restartFromCallback = 0;
 static bool g_batched = false;                      // ordered into g_gniScript once the processing order of the batch is known
 static unsigned long g_gniCalls = 0, g_gniFailed = 0;
 
@@ -329,6 +340,7 @@ static bool mkAddr(const std::string& host, int port, sockaddr_storage& ss, sock
 
 typedef ssize_t (*sendto_t)(int, const void*, size_t, int, const struct sockaddr*, socklen_t);
 typedef ssize_t (*send_t)(int, const void*, size_t, int);
+static std::atomic<int> g_freeEagain{0};           // free-running family: the next k sendto calls of the I/O thread answer EAGAIN
 static sendto_t realSendto() { static sendto_t f = (sendto_t)dlsym(RTLD_NEXT, "sendto"); return f; }
 static send_t realSend() { static send_t f = (send_t)dlsym(RTLD_NEXT, "send"); return f; }
 
@@ -365,6 +377,7 @@ static int scripted(int fd, const void* buf, size_t n, const sockaddr* to)   // 
 extern "C" ssize_t sendto(int fd, const void* buf, size_t n, int flags, const struct sockaddr* to, socklen_t tl)
 {
   bool engine = g_stepA.load(std::memory_order_acquire) && !pthread_equal(pthread_self(), g_main);
+  if (!engine && !pthread_equal(pthread_self(), g_main) && g_freeEagain.load() > 0) { g_freeEagain.fetch_sub(1); errno = EAGAIN; return -1; }
   if (!engine) return realSendto()(fd, buf, n, flags, to, tl);
   int a = scripted(fd, buf, n, to);
   if (a == 1) { errno = EAGAIN; return -1; }
@@ -453,7 +466,7 @@ static bool bindPeer(int i, int family, const std::string& host, int wantPort)
     setsockopt(fd, SOL_SOCKET, SO_RCVBUF, &big, sizeof(big));
     sockaddr_storage ss{}; socklen_t sl = 0;
     if (!mkAddr(host, attempt == 0 ? wantPort : 0, ss, sl)) { close(fd); return false; }
-    if (bind(fd, reinterpret_cast<sockaddr*>(&ss), sl) != 0) { close(fd); if (wantPort == 0) return false; continue; }
+    if (bind(fd, reinterpret_cast<sockaddr*>(&ss), sl) != 0) { close(fd); if (wantPort == 0) return false; ++g_samePortFallback; continue; }
     sl = sizeof(ss);
     if (getsockname(fd, reinterpret_cast<sockaddr*>(&ss), &sl) != 0) { close(fd); return false; }
     g_peer[i].fd = fd; g_peer[i].family = family; g_peer[i].host = host;
@@ -707,6 +720,12 @@ static bool parseScript(const std::string& s)
 
 static std::string answer()
 {
+  if (W.eng)
+  {
+    unsigned long v = (unsigned long)W.eng->_atomicStats.backpressureCloses.load();
+    if (v > g_lastBp) (g_cob ? g_ovClose : g_ovDropOldest) += v - g_lastBp;
+    g_lastBp = v;
+  }
   g_script.clear();
   g_keyed.clear();
   g_gniScript.clear();
@@ -739,6 +758,9 @@ static std::string doReset(const std::vector<std::string>& t)
     else return "bad-op";
   }
   g_batched = batched;
+  g_et = cfg.useEdgeTriggered;
+  g_cob = cfg.closeOnBackpressure;
+  g_lastBp = 0;
   g_vms.store(0);
   g_virtual.store(true);
   W.eng = std::make_unique<UdpEngine>(cfg);
@@ -764,7 +786,8 @@ static std::string doReset(const std::vector<std::string>& t)
   cbs.onData = [](SessionId s, iora::core::BufferView d, std::chrono::steady_clock::time_point) {
     Ev e; e.text = "D" + std::to_string(s) + ":" + std::to_string(d.size()) + ":" + std::to_string(crc32(reinterpret_cast<const std::uint8_t*>(d.data()), d.size()));
     g_log.push_back(e); };
-  cbs.onClose = [](SessionId s, const TransportErrorInfo& i) { Ev e; e.text = "X" + std::to_string(s) + ":" + whyName(i.code); g_log.push_back(e); };
+  cbs.onClose = [](SessionId s, const TransportErrorInfo& i) { Ev e; e.text = "X" + std::to_string(s) + ":" + whyName(i.code); g_log.push_back(e);
+                                                                    if (g_onCloseHook) g_onCloseHook(s); };
   cbs.onError = [](TransportError k, const std::string&) { Ev e; e.text = k == TransportError::Socket ? "E" : std::string("E:") + whyName(k); g_log.push_back(e); };
   W.eng->setCallbacks(cbs);
   { std::lock_guard<std::mutex> lk(g_m); g_step = true; g_stepA.store(true); g_parked = false; g_go = false; g_deliver.clear(); }
@@ -811,6 +834,8 @@ static int prepDg(unsigned long long lid, const std::string& spec)
   }
   int lfd = listenerFd(lid);
   if (lfd < 0) return -1;
+  if (dgs.size() > g_maxBurst) g_maxBurst = dgs.size();
+  for (auto& d : dgs) if (d.second.empty()) ++g_zeroLenArrivals;
   auto la = W.eng->getListenerAddress(W.lids[lid - 1]);
   for (std::size_t i = 0; i < dgs.size(); ++i)
   {
@@ -837,6 +862,8 @@ static int prepCdg(unsigned long long sid, const std::string& spec)
   int cfd = clientFd(sid);
   auto cp = W.clientPeer.find((SessionId)sid);
   if (cfd < 0 || cp == W.clientPeer.end()) return -1;
+  if (dgs.size() > g_maxBurst) g_maxBurst = dgs.size();
+  for (auto& d : dgs) if (d.empty()) ++g_zeroLenArrivals;
   auto la = W.eng->getLocalAddress((SessionId)sid);
   for (auto& d : dgs)
     if (!rawSendAndWait(cp->second, la.host, la.port, cfd, d)) return -3;
@@ -885,6 +912,17 @@ static std::string enqueueCmd(const std::vector<std::string>& t)
     if (!ans) return "bad-op";
     if (pl.empty()) { (void)e.send((SessionId)a, pl.data(), 0); return ""; }     // accepted, nothing queued
     g_keyed.push_back(Keyed{pl.size(), crc32(pl.data(), pl.size()), ans, false});
+    if (pl.size() % 2 == 1)
+    {
+      // the other entry point of the same API: sendAsync() (one send() call + a completion callback on the caller's thread)
+      bool okCb = false, called = false;
+      std::size_t lenCb = 0;
+      e.sendAsync((SessionId)a, pl.data(), pl.size(), [&](SessionId, const iora::network::SendResult& r) { called = true; okCb = r.isOk(); if (okCb) lenCb = r.value(); });
+      ++g_sendAsyncCalls;
+      if (!called) return "sendasync-no-completion";
+      if (okCb && lenCb != pl.size()) return "sendasync-wrong-length";
+      return okCb ? "" : "send-refused";
+    }
     return e.send((SessionId)a, pl.data(), pl.size()) ? "" : "send-refused";
   }
   return "bad-op";
@@ -915,6 +953,37 @@ static void orderGniScript(const std::vector<std::pair<int, std::uint32_t>>& evs
         for (bool b : it->second) g_gniScript.push_back(b);
     }
   g_gniByFd.clear();
+}
+
+// Level-triggered epoll reports a socket again as long as something is queued there; edge-triggered epoll does not. After the op's own
+// wake-up, keep delivering EPOLLIN to each socket of the op while the kernel says it is readable (level-triggered engines only).
+static bool redeliverLT(const std::vector<int>& fds)
+{
+  if (g_et) return true;
+  for (int fd : fds)
+    for (int round = 0; round < 400; ++round)
+    {
+      pollfd p{fd, POLLIN, 0};
+      if (!armedIn(fd) || poll(&p, 1, 0) <= 0 || !(p.revents & POLLIN)) break;
+      ++g_ltRedeliveries;
+      if (!deliver(fd, EPOLLIN)) return false;
+    }
+  return true;
+}
+
+// which of runGc's tests would close a session now (first that holds, in the order of the source) — evidence only
+static void classifyGc()
+{
+  UdpEngine& e = *W.eng;
+  auto now = iora::network::MonoClock::now();
+  for (auto& kv : e._sessions)
+  {
+    auto* s = kv.second.get();
+    if (!s || s->closed) continue;
+    if (e._config.idleTimeout.count() > 0 && (now - s->lastActivity) > e._config.idleTimeout) ++g_gcIdle;
+    else if (e._config.maxConnAge.count() > 0 && (now - s->created) > e._config.maxConnAge) ++g_gcAge;
+    else if (e._config.writeStallTimeout.count() > 0 && !s->wq.empty() && (now - s->lastWriteProgress) > e._config.writeStallTimeout) ++g_gcStall;
+  }
 }
 
 static std::string doListen(int kind)    // 0 = 127.0.0.1, 1 = ::1, 2 = :: (dual-stack)
@@ -952,6 +1021,149 @@ static std::vector<std::vector<std::string>> splitToks(const std::vector<std::st
   return out;
 }
 
+
+// ------------------------------------------------------------------------------------------------ free-running family (real epoll_wait)
+// `free <burst N | zl | flush> [et=0|1]`: a fresh engine whose I/O thread runs on the REAL epoll (no fabricated events, real clock): the
+// kernel decides what is reported and when. Monitors only (the plugin checks the answer; the model is not consulted).
+//   burst N : N one-byte-header datagrams (distinct) from peer 0 to a listener while the I/O thread is busy (ONE readiness edge)  -> data events
+//   zl      : a zero-length datagram and a 5-byte one behind it on a connect()ed session, queued during ONE edge; then a third one -> events before / after
+//   flush   : a send on a ServerPeer session answered EAGAIN once (injected); real EPOLLOUT must flush it                          -> what the peer received
+// Answer: `free <scenario> et=<e> | <events before> | <events after the extra datagram>`.
+static std::mutex g_freeM;
+static std::vector<std::string> g_freeLog;
+static std::atomic<bool> g_freeBlock{false};
+static void freeLog(const std::string& x) { std::lock_guard<std::mutex> g(g_freeM); g_freeLog.push_back(x); }
+static std::string freeJoin()
+{
+  std::lock_guard<std::mutex> g(g_freeM);
+  std::string a;
+  for (auto& e : g_freeLog) { if (!a.empty()) a += ";"; a += e; }
+  return a.empty() ? "-" : a;
+}
+static std::size_t freeCount(char k)
+{
+  std::lock_guard<std::mutex> g(g_freeM);
+  std::size_t n = 0;
+  for (auto& e : g_freeLog) if (e[0] == k) ++n;
+  return n;
+}
+static void freeWait(const std::function<bool()>& done, int ms)
+{
+  long long t0 = realMs();
+  while (!done() && realMs() - t0 < ms) usleep(2000);
+}
+static std::string doFree(const std::vector<std::string>& t)
+{
+  if (t.size() < 2) return "bad-op";
+  stopEngine();
+  drainPeers();
+  TransportConfig cfg;
+  cfg.protocol = iora::network::Protocol::UDP;
+  unsigned long long N = 0;
+  std::size_t i = 2;
+  if (t[1] == "burst") { if (t.size() < 3 || !vh::parseNat(t[2], N) || N < 1 || N > 2000) return "bad-op"; i = 3; }
+  else if (t[1] != "zl" && t[1] != "flush") return "bad-op";
+  for (; i < t.size(); ++i)
+  {
+    if (t[i] == "et=0") cfg.useEdgeTriggered = false;
+    else if (t[i] == "et=1") cfg.useEdgeTriggered = true;
+    else return "bad-op";
+  }
+  g_virtual.store(false);
+  { std::lock_guard<std::mutex> g(g_freeM); g_freeLog.clear(); }
+  g_freeBlock.store(false);
+  auto eng = std::make_unique<UdpEngine>(cfg);
+  iora::network::detail::EngineBase::Callbacks cbs;
+  cbs.onAccept = [](SessionId s, const TransportAddress&) { freeLog("A" + std::to_string(s)); };
+  cbs.onConnect = [](SessionId s, const TransportAddress&) { freeLog("N" + std::to_string(s)); while (g_freeBlock.load()) usleep(500); };   // parks the I/O thread
+  cbs.onData = [](SessionId s, iora::core::BufferView d, std::chrono::steady_clock::time_point) {
+    freeLog("D" + std::to_string(s) + ":" + std::to_string(d.size()) + ":" + std::to_string(crc32(reinterpret_cast<const std::uint8_t*>(d.data()), d.size()))); };
+  cbs.onClose = [](SessionId s, const TransportErrorInfo& inf) { freeLog("X" + std::to_string(s) + ":" + whyName(inf.code)); };
+  cbs.onError = [](TransportError, const std::string&) { freeLog("E"); };
+  eng->setCallbacks(cbs);
+  if (!eng->start().isOk()) { g_machinery = "engine-start-failed"; return "machinery:" + g_machinery; }
+  std::string head = "free " + t[1] + " et=" + (cfg.useEdgeTriggered ? "1" : "0");
+  std::string before = "-", after = "-";
+  auto toAddr = [](const TransportAddress& la, sockaddr_storage& ss, socklen_t& sl) { return mkAddr(la.host, la.port, ss, sl); };
+  auto park = [&]() -> bool {          // park the I/O thread inside onConnect of a throw-away client session to peer 4
+    g_freeBlock.store(true);
+    auto r = eng->connect(g_peer[4].host, (std::uint16_t)g_peer[4].port, iora::network::TlsMode::None);
+    if (!r.isOk()) return false;
+    freeWait([&] { return freeCount('N') >= 1; }, 5000);
+    return freeCount('N') >= 1;
+  };
+  if (t[1] == "burst")
+  {
+    auto lr = eng->addListener("127.0.0.1", 0, iora::network::TlsMode::None);
+    if (!lr.isOk()) { eng->stop(); g_machinery = "cannot-bind-loopback"; return "machinery:" + g_machinery; }
+    sockaddr_storage ss{}; socklen_t sl = 0;
+    toAddr(eng->getListenerAddress(lr.value()), ss, sl);
+    if (!park()) { g_freeBlock.store(false); eng->stop(); return head + " | park-failed | -"; }
+    for (unsigned long long k = 0; k < N; ++k)
+    {
+      std::uint8_t b[2] = {(std::uint8_t)(k & 0xFF), (std::uint8_t)(k >> 8)};
+      realSendto()(g_peer[0].fd, b, 2, 0, reinterpret_cast<sockaddr*>(&ss), sl);
+    }
+    usleep(20000);
+    g_freeBlock.store(false);          // ONE readiness edge for the whole burst
+    freeWait([&] { return freeCount('D') >= N; }, 3000);
+    before = "data=" + std::to_string(freeCount('D')) + "/" + std::to_string(N);
+    std::uint8_t x[1] = {0xEE};
+    realSendto()(g_peer[0].fd, x, 1, 0, reinterpret_cast<sockaddr*>(&ss), sl);
+    freeWait([&] { return freeCount('D') >= N + 1; }, 3000);
+    after = "data=" + std::to_string(freeCount('D')) + "/" + std::to_string(N + 1);
+  }
+  else if (t[1] == "zl")
+  {
+    g_freeBlock.store(true);
+    auto r = eng->connect(g_peer[1].host, (std::uint16_t)g_peer[1].port, iora::network::TlsMode::None);
+    if (!r.isOk()) { g_freeBlock.store(false); eng->stop(); return head + " | connect-refused | -"; }
+    SessionId sid = r.value();
+    freeWait([&] { return eng->getLocalAddress(sid).port != 0 && freeCount('N') >= 1; }, 5000);     // the I/O thread is parked inside onConnect
+    sockaddr_storage ss{}; socklen_t sl = 0;
+    toAddr(eng->getLocalAddress(sid), ss, sl);
+    realSendto()(g_peer[1].fd, "", 0, 0, reinterpret_cast<sockaddr*>(&ss), sl);
+    realSendto()(g_peer[1].fd, "hello", 5, 0, reinterpret_cast<sockaddr*>(&ss), sl);
+    usleep(20000);
+    g_freeBlock.store(false);
+    freeWait([&] { return freeCount('D') >= 2; }, 1500);
+    before = freeJoin();
+    realSendto()(g_peer[1].fd, "x", 1, 0, reinterpret_cast<sockaddr*>(&ss), sl);
+    freeWait([&] { return freeCount('D') >= 3; }, 3000);
+    after = freeJoin();
+  }
+  else
+  {
+    auto lr = eng->addListener("127.0.0.1", 0, iora::network::TlsMode::None);
+    if (!lr.isOk()) { eng->stop(); g_machinery = "cannot-bind-loopback"; return "machinery:" + g_machinery; }
+    sockaddr_storage ss{}; socklen_t sl = 0;
+    toAddr(eng->getListenerAddress(lr.value()), ss, sl);
+    realSendto()(g_peer[2].fd, "hi", 2, 0, reinterpret_cast<sockaddr*>(&ss), sl);
+    freeWait([&] { return freeCount('A') >= 1; }, 3000);
+    before = freeJoin();
+    g_freeEagain.store(1);
+    const char pay[] = "queued-then-flushed";
+    eng->send(1, pay, sizeof(pay) - 1);
+    std::vector<std::uint8_t> buf(2048);
+    pollfd p{g_peer[2].fd, POLLIN, 0};
+    std::string got = "nothing";
+    if (poll(&p, 1, 3000) > 0)
+    {
+      ssize_t n = recv(g_peer[2].fd, buf.data(), buf.size(), MSG_DONTWAIT);
+      got = n == (ssize_t)(sizeof(pay) - 1) && std::memcmp(buf.data(), pay, (size_t)n) == 0 ? "exact" : "other:" + std::to_string(n);
+      usleep(20000);
+      if (recv(g_peer[2].fd, buf.data(), buf.size(), MSG_DONTWAIT) >= 0) got += "+duplicate";
+    }
+    after = "peer-received=" + got + " eagainLeft=" + std::to_string(g_freeEagain.load());
+    g_freeEagain.store(0);
+  }
+  g_freeBlock.store(false);
+  eng->stop();
+  eng.reset();
+  drainPeers();
+  return head + " | " + before + " | " + after;
+}
+
 static std::string step(const std::vector<std::string>& t)
 {
   if (!g_machinery.empty()) return "machinery:" + g_machinery;
@@ -961,6 +1173,7 @@ static std::string step(const std::vector<std::string>& t)
   opKeep = op;
   g_opName.store(opKeep.c_str());
   if (op == "reset") return doReset(t);
+  if (op == "free") return doFree(t);
   if (!W.eng) return "bad-op";
   UdpEngine& e = *W.eng;
   unsigned long long a = 0;
@@ -976,6 +1189,7 @@ static std::string step(const std::vector<std::string>& t)
     {
       orderGniScript({{fd, EPOLLIN}});
       if (!deliver(fd, EPOLLIN)) hang("dg");
+      if (!redeliverLT({fd})) hang("dg");
     }
     return answer();
   }
@@ -984,7 +1198,11 @@ static std::string step(const std::vector<std::string>& t)
     int fd = prepCdg(a, t[2]);
     if (fd == -2) return "bad-op";
     if (fd == -3) return "machinery:" + g_machinery;
-    if (fd >= 0 && armedIn(fd) && !deliver(fd, EPOLLIN)) hang("cdg");
+    if (fd >= 0 && armedIn(fd))
+    {
+      if (!deliver(fd, EPOLLIN)) hang("cdg");
+      if (!redeliverLT({fd})) hang("cdg");
+    }
     return answer();
   }
   if (op == "connect" || op == "via" || op == "close" || op == "send")
@@ -1061,7 +1279,15 @@ static std::string step(const std::vector<std::string>& t)
       else return "bad-op";
     }
     orderGniScript(evs);
+    std::vector<int> inFds;
+    for (auto& x : evs)
+    {
+      if ((x.second & EPOLLIN) && x.first != e._eventFd && x.first != e._timerFd) inFds.push_back(x.first);
+      if ((x.second & EPOLLIN) && (x.second & EPOLLOUT)) ++g_mergedInOut;
+    }
+    for (auto& x : evs) if (x.first == e._timerFd) classifyGc();
     if (!evs.empty() && !deliverMany(evs)) hang("multi");
+    if (!redeliverLT(inFds)) hang("multi");
     recordNewClients();
     return answer();
   }
@@ -1070,15 +1296,52 @@ static std::string step(const std::vector<std::string>& t)
     g_vms.fetch_add((long long)a);
     return answer();
   }
-  if (op == "restart" && t.size() == 1)
+  if (op == "restart")
   {
-    // stop(): the Shutdown command is the only event the loop sees (no real epoll readiness), then shutdownDrain; then start()
+    // stop(): the Shutdown command is the only event the loop sees (no real epoll readiness), then shutdownDrain; then start().
+    //   restart <cmd> / <cmd> …        : the commands (send | close) are enqueued BEFORE stop(): they sit in front of Shutdown in the ONE batch
+    //                                     process() takes, and are all executed (a Shutdown command does not end the batch)
+    //   restart @<sid> <cmd> / <cmd> … : `close <sid>` is enqueued before stop(); the commands are enqueued by the onClose callback of <sid>
+    //                                     (on the I/O thread, while that batch is being processed): they are executed by the LEADING
+    //                                     process() of shutdownDrain — after the loop has ended, before the sessions are closed
     g_opStartMs.store(realMs());
+    g_onCloseHook = nullptr;
+    std::function<void()> hook;
+    if (t.size() > 1)
+    {
+      std::size_t from = 1;
+      unsigned long long hookSid = 0;
+      bool viaCallback = t[1].size() > 1 && t[1][0] == '@';
+      if (viaCallback) { if (!vh::parseNat(t[1].substr(1), hookSid)) return "bad-op"; from = 2; }
+      auto cmds = splitToks(t, from, "/");
+      for (auto& c : cmds) if (c.empty() || (c[0] != "send" && c[0] != "close")) return "bad-op";
+      if (viaCallback)
+      {
+        ++g_restartFromCallback;
+        g_hookSid = (SessionId)hookSid;
+        g_hookCmds = cmds;
+        g_onCloseHook = [](SessionId s) {
+          if (s != g_hookSid) return;
+          auto cmds = g_hookCmds;
+          g_hookCmds.clear();
+          for (auto& c : cmds) (void)enqueueCmd(c);
+        };
+        if (!e.close((SessionId)hookSid)) { g_onCloseHook = nullptr; return "close-refused"; }
+      }
+      else
+      {
+        ++g_restartPending;
+        for (auto& c : cmds) { std::string r = enqueueCmd(c); if (!r.empty()) { g_keyed.clear(); return r; } }
+      }
+    }
     auto before = e._atomicStats.commands.load();
     auto fut = std::async(std::launch::async, [&e] { e.stop(); return 0; });
     while (e._atomicStats.commands.load() == before) usleep(50);
     deliverNoWait(e._eventFd, EPOLLIN);
     fut.get();                                           // joined: the close callbacks of shutdownDrain are in g_log
+    g_onCloseHook = nullptr;
+    g_hookCmds.clear();
+    std::string evsText = collect();                     // (receipts are named from W.srcName: collect before it is cleared)
     { std::lock_guard<std::mutex> lk(g_m); g_parked = false; g_go = false; g_deliver.clear(); }
     { std::lock_guard<std::mutex> g(g_maskM); g_mask.clear(); }
     W.srcName.clear();
@@ -1088,10 +1351,13 @@ static std::string step(const std::vector<std::string>& t)
     if (!sr.isOk()) { g_machinery = "engine-restart-failed"; return "machinery:" + g_machinery; }
     waitParked();
     g_opStartMs.store(0);
-    return answer();
+    std::string rest = answer();                         // "<later events> | <state>"
+    if (rest.rfind("- | ", 0) == 0) return evsText + rest.substr(1);
+    return (evsText == "-" ? "" : evsText + ";") + rest;
   }
   if (op == "gc" && t.size() == 1)
   {
+    classifyGc();
     if (!deliver(e._timerFd, EPOLLIN)) hang("gc");
     return answer();
   }
@@ -1111,7 +1377,9 @@ int main()
     catch (...) { return "throw ?"; }
   });
   stopEngine();
-  std::fprintf(stderr, "interposers: parks=%lu sendCalls=%lu eagain=%lu err=%lu forwarded=%lu kernelRefused=%lu unscripted=%lu lostReceipts=%d getnameinfo=%lu getnameinfoFailed=%lu\n", g_parks, g_sendCalls,
-               g_injectedEagain, g_injectedErr, g_forwarded, g_kernelRefused, g_unkeyed, g_lost, g_gniCalls, g_gniFailed);
+  std::fprintf(stderr, "interposers: parks=%lu sendCalls=%lu eagain=%lu err=%lu forwarded=%lu kernelRefused=%lu unscripted=%lu lostReceipts=%d getnameinfo=%lu getnameinfoFailed=%lu "
+               "epollCtlFailed=%lu ltRedeliveries=%lu overflowClose=%lu overflowDropOldest=%lu gcIdle=%lu gcAge=%lu gcStall=%lu mergedInOut=%lu zeroLenArrivals=%lu maxBurst=%lu samePortFallback=%lu sendAsyncCalls=%lu restartWithPending=%lu restartFromCallback=%lu\n",
+               g_parks, g_sendCalls, g_injectedEagain, g_injectedErr, g_forwarded, g_kernelRefused, g_unkeyed, g_lost, g_gniCalls, g_gniFailed,
+               g_ctlFailed, g_ltRedeliveries, g_ovClose, g_ovDropOldest, g_gcIdle, g_gcAge, g_gcStall, g_mergedInOut, g_zeroLenArrivals, g_maxBurst, g_samePortFallback, g_sendAsyncCalls, g_restartPending, g_restartFromCallback);
   return rc;
 }
